@@ -1653,7 +1653,8 @@ def gen_encodedb(seed, n, start_id=0):
             continue
         v = rng.choice(vs)
         lines.append("cfg cache=%d fast=%d thr=%d iv=-" % (rng.choice([0, 3, 100]), rng.randint(0, 1), rng.choice([0, 300])))
-        lines.append("encodedb %d" % v)
+        # (half of the images record an inherited root in the short form `s<version>` written before lazy pruning)
+        lines.append("encodedb %d%s" % (v, " short" if rng.random() < 0.5 else ""))
         m = h.versions[v]
         lines += ["avail", "latest", "lhash", "hash", "size", "height", "miterate", "imm %d iterate" % v, "imm %d hash" % v]
         for k in sorted(m)[:8]:
